@@ -114,6 +114,12 @@ def _genseq(draw):
     for i in range(nmacro):
         macros.append({"tag": "ABC"[i], "levels": draw(st.integers(1, 4)), "bfact": draw(st.integers(1, 3)),
                        "resname": draw(st.sampled_from(NAMES))})
+        if draw(st.integers(0, 2)) == 0:
+            # a mix in which every other residue has probability 0: still deterministic
+            others = draw(st.lists(st.sampled_from([x for x in NAMES if x != macros[-1]["resname"]]),
+                                   min_size=1, max_size=2, unique=True))
+            macros[-1]["mix"] = others
+            macros[-1]["mix_pos"] = draw(st.integers(0, len(others)))
     use_file = draw(st.integers(0, 3)) == 0
     filemacro = None
     if use_file:
@@ -306,7 +312,13 @@ def check(spec, ctx):
 def check_genseq(spec, ctx, ff):
     from polyply.src.gen_seq import gen_seq
     from polyply.src.meta_molecule import MetaMolecule
-    macro_strings = [f"{m['tag']}:{m['levels']}:{m['bfact']}:{m['resname']}-1.0" for m in spec["macros"]]
+    macro_strings = []
+    for m in spec["macros"]:
+        parts = [f"{o}-0.0" for o in m.get("mix", [])]
+        parts.insert(m.get("mix_pos", 0), f"{m['resname']}-1.0")
+        macro_strings.append(f"{m['tag']}:{m['levels']}:{m['bfact']}:" + ",".join(parts))
+        if m.get("mix"):
+            ctx.label("macro_mix_with_zero_weights")
     inpath, from_file = [], None
     if spec["filemacro"]:
         fm = spec["filemacro"]
